@@ -383,7 +383,7 @@ class C06(Prop):
                 # pass is therefore "the producer's next step".
                 nxt = [e[0] for e in snap["st"]["events"][snap["out"].get("n_at_close", 0):] if e[0] > t0]
                 bound = (nxt[0] if nxt else t0) + 0.001
-                if snap["out"]["closed_at"] > bound and snap["st"]["started"]:
+                if snap["out"]["closed_at"] > bound:
                     ctx.violate("C06|%s|termination|close-late" % surf, "close() began at %.3f, returned at %.3f, producer's next step at %.3f" % (t0, snap["out"]["closed_at"], bound))
             # 2. release (all threads done is implied by res == ok)
             if plan["iter_kind"] == "gen" and snap["st"]["started"] and snap["st"]["cleanup"] != 1:
